@@ -19,6 +19,9 @@ import build as builder  # noqa: E402
 from props import PROPS  # noqa: E402
 
 NW = int(os.environ.get("VERIF_WORKERS", "16"))
+# scratch runs against mutated trees (REPO=...) keep their evidence and replays out of /verif's own
+EVIDENCE = os.environ.get("VERIF_EVIDENCE", os.path.join(VERIF, "evidence"))
+REPLAYS = os.environ.get("VERIF_REPLAYS", os.path.join(VERIF, "replays"))
 ASAN_OPTS = "detect_leaks=0:allocator_may_return_null=1:abort_on_error=0:handle_abort=1:print_summary=1:max_malloc_fill_size=4096:malloc_fill_byte=190"
 UBSAN_OPTS = "print_stacktrace=1:halt_on_error=1"
 
@@ -102,7 +105,7 @@ def ddmin_text(binpath, spec, text, tier, want_kind, want_sig_prefix, budget=120
     """greedy removal of ' step' lines while the same kind of failure remains"""
     lines = text.split("\n")
     idx = [i for i, l in enumerate(lines) if (l.startswith(" step") or l.startswith("op ")) and "setparams" not in l]
-    tmp = os.path.join(VERIF, "build", "run", "ddmin-%d.replay" % os.getpid())
+    tmp = os.path.join(builder.BUILD_ROOT, "run", "ddmin-%d.replay" % os.getpid())
     os.makedirs(os.path.dirname(tmp), exist_ok=True)
 
     def bad(ls):
@@ -152,11 +155,11 @@ def main():
         return 2
     unavailable = open(os.path.join(bdir, "unavailable_probes.txt")).read().split()
     binpath = os.path.join(bdir, spec["engine"])
-    rundir = os.path.join(VERIF, "build", "run", "%s-%s-%d" % (pid, tier, os.getpid()))
+    rundir = os.path.join(builder.BUILD_ROOT, "run", "%s-%s-%d" % (pid, tier, os.getpid()))
     shutil.rmtree(rundir, ignore_errors=True)
     os.makedirs(rundir)
-    os.makedirs(os.path.join(VERIF, "replays"), exist_ok=True)
-    os.makedirs(os.path.join(VERIF, "evidence"), exist_ok=True)
+    os.makedirs(REPLAYS, exist_ok=True)
+    os.makedirs(EVIDENCE, exist_ok=True)
 
     known = Known(os.path.join(VERIF, "KNOWN_FINDINGS.txt"))
     violations = []   # (sig, msg, replay path)
@@ -292,7 +295,7 @@ def main():
                             known_findings=[l for l in known_lines],
                             **{k: v for k, v in merged.items() if k.startswith("x_")}),
               assumptions=spec.get("assumptions", []), wall_s=round(wall, 2), violations=len(violations))
-    with open(os.path.join(VERIF, "evidence", pid + ".json"), "w") as fh:
+    with open(os.path.join(EVIDENCE, pid + ".json"), "w") as fh:
         json.dump(ev, fh, indent=1, sort_keys=True)
     shutil.rmtree(rundir, ignore_errors=True)
     for l in known_lines:
@@ -311,7 +314,7 @@ def main():
 
 def save_replay(pid, text):
     h = hashlib.sha256(text.encode()).hexdigest()[:12]
-    p = os.path.join(VERIF, "replays", "%s-%s.replay" % (pid, h))
+    p = os.path.join(REPLAYS, "%s-%s.replay" % (pid, h))
     with open(p, "w") as fh:
         fh.write(text)
     return p
